@@ -37,7 +37,7 @@ TIERS = {
     "quick": {"runs": 3200, "chunk": 40, "selftest": 32, "minimise_s": 60},
     "thorough": {"budget_s": 900, "chunk": 100, "selftest": 256, "minimise_s": 120},
 }
-PROBES = ["two_threads_in_anchor", "switch_in_resolve_forward_refs", "switch_in_registry", "both_miss_parsers_cache",
+PROBES = ["two_threads_in_anchor", "switch_in_resolve_forward_refs", "switch_in_registry",
           "sequential_orders_disagree", "linearized_by_non_invoke_order"]
 
 
